@@ -38,6 +38,12 @@ def replay(pid, path):
             print('lexer model :', lexmodel.compare(s, [b], [p]))
             print('parser model:', parsemodel.compare(s, [b], [p]))
             bad += s.v
+        elif rep.get('mode') == 'concurrent':
+            import raceprops
+            s = Sink()
+            s.seed, s.quick, s.evaluations, s.nontrivial = int(os.environ.get('VERIF_SEED', '1')), True, 0, set()
+            print('concurrent contexts under the race detector:', raceprops.run(s))
+            bad += s.v
         elif rep.get('grammar_text') is not None:
             t = rep['grammar_text']
             p = os.path.join(work, 'g.y')
